@@ -465,12 +465,14 @@ Definition resync_section (w : world) (ip : N) (o : oracle) (oclear : list N) (f
       let k := Keys.parse_key (e_key e) in
       if resync_skip e k then (w, SOk) else
       if pod_running w (Keys.ko_ns k) (Keys.ko_pod k) (e_uid e) then (w, SOk) else
+      (* K3b (repaired): with a provider, EVERY IP of the key that still has a node stored is unassigned - all IPs of the key are
+         cleared and released / reserved below - whether or not the item's own IP has a node stored; when none has, the provider
+         is not called and the clearing ReserveIP is skipped.  [oclear] = the order of the unassign loop followed by the order
+         of the clearing ReserveIP (two independent map iterations); a failing provider call ends the item (retried by the
+         next pass) *)
+      let assigned := List.filter (fun kv => negb (Keys.is_empty (e_node (snd kv)))) (by_key (w_ipam w) (e_key e)) in
       let step1 : world * sres :=
-        if w_provider w && negb (Keys.is_empty (e_node e)) then
-          (* K3b (repaired): EVERY IP of the key that still has a node stored is unassigned - all IPs of the key are cleared and
-             released / reserved below.  [oclear] = the order of the unassign loop followed by the order of the clearing
-             ReserveIP (two independent map iterations); a failing provider call ends the item (retried by the next pass) *)
-          let assigned := List.filter (fun kv => negb (Keys.is_empty (e_node (snd kv)))) (by_key (w_ipam w) (e_key e)) in
+        if w_provider w && (match assigned with [] => false | _ => true end) then
           let n := List.length assigned in
           let oun := take n oclear in
           let ocl := drop n oclear in
